@@ -46,7 +46,7 @@ pub fn run(ctx: &Ctx) -> i32 {
     let on_state = |e: &Envelope, desc: &dyn Fn() -> String, acc: &mut Acc| {
         let d0 = bind::dg(e); let o0 = bind::observe(e);
         let sc = subject_case(e);
-        let det = |x: &Envelope| json!({"envelope": hex::encode(e.to_cbor_data()), "notation": e.format_flat(), "result": x.format_flat()});
+        let det = |x: &Envelope| json!({"envelope": hex::encode(e.to_cbor_data()), "notation": crate::report::ff(&e), "result": crate::report::ff(&x)});
         // compress / uncompress
         acc.inc("law_checks");
         if let Ok(Ok(c)) = catch(|| e.compress()) {
@@ -73,8 +73,8 @@ pub fn run(ctx: &Ctx) -> i32 {
             }
             let plus = e.add_assertion("c", "d");
             if let Ok(Ok(u)) = catch(|| cs.add_assertion("c", "d").uncompress_subject()) {
-                if bind::dg(&u) != bind::dg(&plus) { acc.viol(format!("C13|uncompress_subject|{sc}|digest-changed-after-add"), "a compressed subject given a further assertion does not uncompress to the digest of the original with that assertion", format!("{}/compress_subject-add-uncompress_subject", desc()), json!({"envelope": e.format_flat(), "got": u.format_flat(), "want": plus.format_flat()})) }
-                else if !subject_was_compressed && bind::observe(&u) != bind::observe(&plus) { acc.viol(format!("C13|uncompress_subject|{sc}|differs-after-add"), "not identical after add", format!("{}/compress_subject-add-uncompress_subject", desc()), json!({"envelope": e.format_flat(), "got": u.format_flat()})) }
+                if bind::dg(&u) != bind::dg(&plus) { acc.viol(format!("C13|uncompress_subject|{sc}|digest-changed-after-add"), "a compressed subject given a further assertion does not uncompress to the digest of the original with that assertion", format!("{}/compress_subject-add-uncompress_subject", desc()), json!({"envelope": crate::report::ff(&e), "got": crate::report::ff(&u), "want": crate::report::ff(&plus)})) }
+                else if !subject_was_compressed && bind::observe(&u) != bind::observe(&plus) { acc.viol(format!("C13|uncompress_subject|{sc}|differs-after-add"), "not identical after add", format!("{}/compress_subject-add-uncompress_subject", desc()), json!({"envelope": crate::report::ff(&e), "got": crate::report::ff(&u)})) }
             }
         }
         // uncompress operations on whatever this state is never change the digest
@@ -131,7 +131,7 @@ pub fn run(ctx: &Ctx) -> i32 {
     }
     let cov = json!({"states": st.states, "transitions": st.transitions, "traces_validated_against_impl": st.sequences,
         "evaluations": st.states + acc.get("faults"), "distinct_nontrivial": st.states,
-        "samples": roots.iter().rev().take(3).map(|(n, e)| json!({"root": n, "notation": e.format_flat().chars().take(80).collect::<String>()})).collect::<Vec<_>>(),
+        "samples": roots.iter().rev().take(3).map(|(n, e)| json!({"root": n, "notation": crate::report::ff(&e).chars().take(80).collect::<String>()})).collect::<Vec<_>>(),
         "rule": "BFS over {compress, compress_subject, uncompress, uncompress_subject, add, wrap, encode-decode}; at every state: digest invariance of the four (un)compress operations, round-trip and idempotence laws, also with an assertion added in between; faults: every bit of the compressed data / checksum / size, digest replaced, content-vs-declared-digest mismatches, non-envelope payloads",
         "exhaustive": true, "bounds": {"depth": depth, "root_tree_weight": rw, "fault_family": fam.len()},
         "bfs": {"states_per_depth": st.per_depth, "merged": st.merged, "refused": st.refused}});
